@@ -32,14 +32,23 @@ var validatorRe = regexp.MustCompile(`VALIDATOR (\S+) OK evaluations=(\d+) bound
 // concrete failing input (the validator runs the real functions), not an engine fault.
 var standInOf = map[string]string{
 	"(*BatchDataCodingEncoder).Build": "BUILD",
-	"cmpp.MsgID2String":               "MSGID", "cmpp.MsgIDString2Uint64": "MSGID",
-	"datacoding.(UCS2).": "XTEXT", "datacoding.(Latin1).": "XTEXT", "datacoding.(GB18030).": "XTEXT", "datacoding.(GSM7Unpacked).": "XTEXT",
+	"datacoding.(UCS2).":              "XTEXT", "datacoding.(Latin1).": "XTEXT", "datacoding.(GB18030).": "XTEXT", "datacoding.(GSM7Unpacked).": "XTEXT",
 }
 
 // standInPartial: functions that ARE under contract, but only for safety, bounds and termination; what they compute is
 // covered by a bounded stand-in.
-var standInPartial = map[string]string{
-	"gsm7encoding.(*gsm7Encoder).Transform": "AGREE", "gsm7encoding.(*gsm7Decoder).Transform": "AGREE",
+type partialStandIn struct {
+	Validator string
+	Props     []string // the properties whose check runs it
+	What      string
+}
+
+var standInPartial = map[string]partialStandIn{
+	"gsm7encoding.(*gsm7Encoder).Transform": {"AGREE", []string{"C08", "C05"}, "functional part"},
+	"gsm7encoding.(*gsm7Decoder).Transform": {"AGREE", []string{"C08", "C05"}, "functional part"},
+	// both string functions are proved against the Sprintf / Sscanf models; that Sscanf inverts Sprintf on in-range fields is
+	// the hypothesis of lemma msgid_string_roundtrip (A-SCAN), which this bounded check exercises on the real functions
+	"cmpp.MsgIDString2Uint64": {"MSGID", []string{"C17"}, "inverse law assumed of fmt.Sscanf, hypothesis of lemma msgid_string_roundtrip"},
 }
 
 var validatorFailRe = regexp.MustCompile(`VALIDATOR-FAIL (.*)`)
@@ -71,7 +80,7 @@ func runStandIns(repo, root string, names []string, quick bool) ([]map[string]in
 	text := buf.String()
 	var out []map[string]interface{}
 	for _, m := range validatorRe.FindAllStringSubmatch(text, -1) {
-		out = append(out, map[string]interface{}{"stands_in_for": m[1], "status": "held on everything evaluated (BOUNDED stand-in for the trusted contracts, not a proof)", "evaluations": m[2], "bound": strings.TrimSpace(m[3])})
+		out = append(out, map[string]interface{}{"stands_in_for": m[1], "status": "held on everything evaluated (BOUNDED stand-in for what is assumed, not a proof)", "evaluations": m[2], "bound": strings.TrimSpace(m[3])})
 	}
 	var fails []string
 	for _, m := range validatorFailRe.FindAllStringSubmatch(text, -1) {
